@@ -113,18 +113,40 @@ func buildCases(ctx *core.Ctx, progs []*dsl.Program, maxDev int) []*ProgCase {
 		buildOffRuns(pc)
 		// unmapped keys: the baseline message with the key member replaced
 		if mf, key, vals := r.UnmappedKeys(); mf != nil && len(pc.Msgs) > 0 {
-			base := pc.Msgs[0]
-			for _, kv := range vals {
-				v := *base.Val
-				v.Fields = append([]*wire.Value(nil), base.Val.Fields...)
-				for j, f := range r.Root.Fields {
-					if f.Name == key.Name {
-						v.Fields[j] = kv
+			// ... carried by the first message of every payload alternative: an unmapped key must fail whatever follows
+			// it on the wire - a body of another alternative, or none at all (an empty packet: a frame of length 0)
+			bases := []*wire.Message{pc.Msgs[0]}
+			mfIdx := -1
+			for j, f := range r.Root.Fields {
+				if f == mf {
+					mfIdx = j
+				}
+			}
+			seenAlt := map[string]bool{}
+			if mfIdx >= 0 && mfIdx < len(pc.Msgs[0].Val.Fields) && pc.Msgs[0].Val.Fields[mfIdx] != nil {
+				seenAlt[pc.Msgs[0].Val.Fields[mfIdx].Packet] = true
+				for _, m := range pc.Msgs[1:] {
+					if mfIdx < len(m.Val.Fields) && m.Val.Fields[mfIdx] != nil && !seenAlt[m.Val.Fields[mfIdx].Packet] {
+						seenAlt[m.Val.Fields[mfIdx].Packet] = true
+						bases = append(bases, m)
 					}
 				}
-				enc := r.Encode(&wire.Message{ID: "u", Packet: r.Root.Name, Val: &v})
-				if enc.Err == "" {
-					pc.UnmappedHex = append(pc.UnmappedHex, hex.EncodeToString(enc.Bytes))
+			}
+			seenHex := map[string]bool{}
+			for _, base := range bases {
+				for _, kv := range vals {
+					v := *base.Val
+					v.Fields = append([]*wire.Value(nil), base.Val.Fields...)
+					for j, f := range r.Root.Fields {
+						if f.Name == key.Name {
+							v.Fields[j] = kv
+						}
+					}
+					enc := r.Encode(&wire.Message{ID: "u", Packet: r.Root.Name, Val: &v})
+					if h := hex.EncodeToString(enc.Bytes); enc.Err == "" && !seenHex[h] {
+						seenHex[h] = true
+						pc.UnmappedHex = append(pc.UnmappedHex, h)
+					}
 				}
 			}
 		}
